@@ -85,7 +85,10 @@ def task_roundtrip(chunk):
     from yabgp.message.open import Open
     v = []
     classes = set()
+    mark, prev = 0, None
     for asn, hold, bid, caps in chunk:
+        _tag(v, mark, 'rt', prev)
+        mark, prev = len(v), (asn, hold, bid, caps)
         want = expected_from_inputs(asn, hold, bid, caps)
         cls = ('asn>65535' if asn > 65535 else 'asn<=65535', 'no-optional-parameters' if not want['capabilities'] else 'caps',
                'add_path' if caps.get('add_path') else '-', 'afi%d' % len(caps.get('afi_safi') or ()))
@@ -118,7 +121,14 @@ def task_roundtrip(chunk):
                     d = ['capabilities.' + k for k in sorted(set(gc) | set(wc)) if gc.get(k) != wc.get(k)]
                 sym = 'diff:' + ','.join(d)
             v.append(('C14|open|%s|%s' % ('/'.join(cls), sym), {'asn': asn, 'hold': hold, 'bgp_id': bid, 'caps': caps, 'got': got, 'want': want}))
+    _tag(v, mark, 'rt', prev)
     return len(chunk), v, classes
+
+
+def _tag(v, start, which, case):
+    """attach the single case (picklable, exact) to the violations it produced"""
+    for k, det in v[start:]:
+        det['case'] = report.pack((which, [case]))
 
 
 # ------------------------------------------------------------------ half 2: reference encoder -> yabgp parse
@@ -198,7 +208,10 @@ def task_ref(chunk):
     items = cap_items()
     v = []
     classes = set()
+    mark, prev = 0, None
     for combo, pk, asn in chunk:
+        _tag(v, mark, 'ref', prev)
+        mark, prev = len(v), (combo, pk, asn)
         enc = []
         want_caps = {}
         has_as4 = False
@@ -237,6 +250,7 @@ def task_ref(chunk):
                 sym = 'diff:' + ','.join(d)
             v.append(('C14|open-ref|%s|%s|%s' % ('+'.join(kinds) or 'none', pk, sym),
                       {'caps': labels, 'packaging': pk, 'hex': body.hex(), 'got': got, 'want': want}))
+    _tag(v, mark, 'ref', prev)
     return len(chunk), v, classes
 
 
@@ -318,11 +332,12 @@ def run(tier, seed):
     explore.close_pool()
     total = 0
     classes = set()
-    for n, v, cl in res:
+    for t, (n, v, cl) in zip(tasks, res):
         total += n
         classes |= cl
         for k, det in v:
-            col.add(k, det, det)
+            det = det if isinstance(det, dict) else {}
+            col.add(k, det, {x: y for x, y in det.items() if x != 'case'}, task=t if t[0] == 'small' else None)
     n_new, n_known, summary = col.finish('c14-case')
     cov = {
         'evaluations': total, 'distinct_nontrivial': len(classes),
@@ -346,14 +361,15 @@ def run(tier, seed):
 def replay(path):
     import json
     d = json.load(open(path))
-    w = d['witness']
-    from yabgp.message.open import Open
-    if 'hex' in w and 'caps' in w and 'packaging' in w:
-        body = bytes.fromhex(w['hex'])
-        r = [budget.run(50000, lambda: Open().parse(body)) for _ in range(2)]
-        print('OPEN body', w['hex'], 'capabilities', w['caps'], w['packaging'])
-        print('decoded :', r[0][:2])
-        print('expected:', w.get('want'))
-        return 2 if repr(r[0][:2]) != repr(r[1][:2]) else 1
-    print(json.dumps(d, indent=1, default=str)[:2000])
-    return 1
+    w = d['witness'] or {}
+    print(json.dumps(d.get('detail'), indent=1, default=str)[:2000])
+    if 'case' in w:
+        t = report.unpack(w['case'])
+        a, b = report.twice(_dispatch, t)
+        if repr(a[1]) != repr(b[1]):
+            print('HARNESS-ERROR: replay is not deterministic')
+            return 2
+        keys = [k for k, _ in a[1]]
+        print('violation keys of the case on replay:', keys)
+        return 1 if d['key'] in keys else 0
+    return report.replay_in_task(d, _dispatch)
